@@ -15,6 +15,7 @@ package main
 //   - struct values (by value) are SMT datatypes
 
 import (
+	"hash/fnv"
 	"fmt"
 	"go/types"
 	"sort"
@@ -77,6 +78,25 @@ func newUniverse() *Universe {
 		typeIDs:   map[string]int{},
 		axiomSeen: map[string]bool{},
 	}
+}
+
+// sprintfUF: the uninterpreted function standing for fmt.Sprintf with one
+// constant format and operands of the given sorts.
+func (u *Universe) sprintfUF(format string, sorts []Sort) string {
+	h := fnv.New32a()
+	h.Write([]byte(format))
+	var ss []string
+	name := fmt.Sprintf("ext$sprintf$%08x", h.Sum32())
+	for _, s := range sorts {
+		ss = append(ss, string(s))
+		name += "$" + string(s)
+	}
+	if len(sorts) == 0 {
+		u.declFun(name, fmt.Sprintf("(declare-const %s Str)", name))
+	} else {
+		u.declFun(name, fmt.Sprintf("(declare-fun %s (%s) Str)", name, strings.Join(ss, " ")))
+	}
+	return name
 }
 
 func mangle(s string) string {
